@@ -46,6 +46,10 @@ func (c *connection) onHup(p Poll) error {
 	needCloseByUser := onConnect == nil && onRequest == nil
 	if !needCloseByUser {
 		// already PollDetach when call OnHup
+		if c.offerBufferedInput() {
+			// the handler sees the remaining input first; its task runs the close callbacks on exit
+			return nil
+		}
 		c.closeCallback(true, false)
 	}
 	return nil
